@@ -828,8 +828,9 @@ def run_c11(ctx):
 
 
 def run_c02(ctx):
-    return run_areas(ctx, ["cliresp", "cliwfail"], [mon_resp, mon_resolve_deadlock_only],
-                     "cliresp: request shapes x response orders, chunkings, paddings, representation choices, CONTINUATION cuts. " + WFAIL_NOTE)
+    return run_areas(ctx, ["cliresp", "cliflow", "cliwfail"], [mon_resp, mon_resolve_deadlock_only],
+                     "cliresp: request shapes x response orders, chunkings, paddings, representation choices, CONTINUATION cuts; "
+                     "cliflow: several uploads (buffered and streamed) held back and released by window schedules, every body octet checked against its request's pattern. " + WFAIL_NOTE)
 
 
 def run_c14c(ctx):
